@@ -45,6 +45,8 @@ TTup(es)  == [k |-> "tuple", es |-> es]
 TUni(as)  == [k |-> "union", alts |-> as]
 TOpt(e)   == TUni(<<e, TNone>>)
 TCls(n)   == [k |-> "cls", n |-> n]
+\* collections.deque: a COLLECTION class with its own (standard, generic) conversion from / to List[e]
+TDeque(e) == [k |-> "deque", e |-> e]
 TVar      == [k |-> "tvar"]
 TUnsup    == [k |-> "unsup"]
 
@@ -68,8 +70,10 @@ IsSubType(E, T1, T2) == IF T1.k = "cls" /\ T2.k = "cls" THEN Sub(E, T1.n, T2.n) 
 RECURSIVE Mro(_, _)
 Mro(E, n) == <<n>> \o (IF E.ct[n].sup = "" THEN <<>> ELSE Mro(E, E.ct[n].sup))
 
-Convertible(T)  == T.k \in {"int", "str", "none", "list", "dict", "tuple", "cls"}
-IsCollection(T) == T.k \in {"list", "dict", "tuple"}
+Convertible(T)  == T.k \in {"int", "str", "none", "list", "dict", "tuple", "cls", "deque"}
+IsCollection(T) == T.k \in {"list", "dict", "tuple", "deque"}
+DqD(T) == Cv("dqd", TList(T.e), T, FALSE, {}, <<>>, "none", "func")
+DqS(T) == Cv("dqs", T, TList(T.e), FALSE, {}, <<>>, "none", "func")
 
 \* sub_conversion(conv, next): (conv.sub_conversion, next)
 SubConv(c, next) == c.sub \o next
@@ -78,7 +82,7 @@ SubConv(c, next) == c.sub \o next
 \* DESERIALIZATION
 
 \* default_deserialization: exact class only (deserializers are not inherited)
-DefaultD(E, T) == IF T.k = "cls" THEN E.regD[T.n] ELSE <<>>
+DefaultD(E, T) == IF T.k = "cls" THEN E.regD[T.n] ELSE IF T.k = "deque" THEN <<DqD(T)>> ELSE <<>>
 
 \* DeserializationVisitor._has_conversion -> [dyn, convs]; dyn /\ convs = <<>> is (True, None)
 RECURSIVE HasDLoop(_, _, _, _, _)
@@ -120,6 +124,7 @@ StructPlainDS(E, T, conv, seen) ==
     [] T.k = "tuple" -> LET ps == PlainSeqDS(E, T.es, conv, seen) IN
                         IF \E i \in DOMAIN ps : ps[i].k = "unsup" THEN TUnsup ELSE TTup(ps)
     [] T.k = "union" -> UnionOf(PlainSeqDS(E, T.alts, conv, seen))
+    [] T.k = "deque" -> TUnsup        \* never reached: its standard conversion always applies
     [] T.k = "cls"   -> IF E.ct[T.n].kind = "opq" THEN TUnsup
                         ELSE LET fs == E.ct[T.n].fields
                                  ps == [i \in DOMAIN fs |-> PlainDS(E, fs[i].t, FieldConvD(fs[i], conv), seen)] IN
@@ -187,6 +192,7 @@ TryConvs(E, convs, next, d, i) ==
          [] r.kind = "bad"   -> TryConvs(E, convs, next, d, i + 1)
          [] OTHER ->
               IF c.id = "identity" THEN r
+              ELSE IF c.id = "dqd" THEN OkV([k |-> "deque", a |-> r.v.a])
               ELSE IF r.v \in c.bad
                    THEN IF c.catch THEN TryConvs(E, convs, next, d, i + 1) ELSE RaiseV
                    ELSE OkV(Opq(c.tgt.n, c.id, r.v))
@@ -211,6 +217,7 @@ MroLookup(E, n, mro) ==
   ELSE LET r == E.regS[Head(mro)] IN
        IF r # <<>> /\ (Head(mro) = n \/ Inheritable(r[1])) THEN r ELSE MroLookup(E, n, Tail(mro))
 DefaultS(E, T) ==
+  IF T.k = "deque" THEN <<DqS(T)>> ELSE
   IF T.k # "cls" THEN <<>>
   ELSE IF E.via = "param" THEN E.regS[T.n] ELSE MroLookup(E, T.n, Mro(E, T.n))
 
@@ -236,6 +243,7 @@ StructPlainSS(E, T, conv, seen) ==
     [] T.k = "tuple" -> LET ps == [i \in DOMAIN T.es |-> PlainSS(E, T.es[i], conv, seen)] IN
                         IF \E i \in DOMAIN ps : ps[i].k = "unsup" THEN TUnsup ELSE TTup(ps)
     [] T.k = "union" -> UnionOf([i \in DOMAIN T.alts |-> PlainSS(E, T.alts[i], conv, seen)])
+    [] T.k = "deque" -> TUnsup
     [] T.k = "cls"   -> IF E.ct[T.n].kind = "opq" THEN TUnsup
                         ELSE LET fs == E.ct[T.n].fields
                                  ps == [i \in DOMAIN fs |-> PlainSS(E, fs[i].t, FieldConvS(fs[i], conv), seen)] IN
@@ -260,6 +268,7 @@ GApply(c, v) ==
     [] c.id = "tw"   -> VInst("W", << <<"w", v.v>> >>)
     [] c.id = "tk3"  -> Opq("K3", "tk3", v.v)
     [] c.id = "tlk"  -> VList(<<Opq("K3", "tlk", v.v)>>)
+    [] c.id = "dqs"  -> VList(v.a)
 
 \* runtime class test of a union alternative (expected_class / isinstance)
 IsOf(E, v, T) ==
@@ -269,6 +278,7 @@ IsOf(E, v, T) ==
     [] T.k = "list"  -> v.k = "list"
     [] T.k = "dict"  -> v.k = "dict"
     [] T.k = "tuple" -> v.k = "tuple"
+    [] T.k = "deque" -> v.k = "deque"
     [] T.k = "cls"   -> (v.k = "opq" /\ Sub(E, v.cls, T.n)) \/ (v.k = "inst" /\ Sub(E, v.cls, T.n))
     [] OTHER -> FALSE
 
